@@ -113,8 +113,7 @@ EXPORT errno_t _memmove16_s_chk(uint16_t *dest, rsize_t dmax,
         BND_CHK_PTR_BOUNDS(src, smax);
     } else {
         if (unlikely(smax > srcbos)) {
-            invoke_safe_mem_constraint_handler("memmove16_s: slen exceeds src",
-                                               (void *)src, EOVERFLOW);
+            handle_mem_error((void *)dest, dmax, "memmove16_s: slen exceeds src", EOVERFLOW);
             return (RCNEGATE(EOVERFLOW));
         }
     }
